@@ -27,6 +27,7 @@ type C03Case struct {
 	Adversarial bool `json:"adversarial"`
 	NonASCII    bool `json:"non_ascii"`
 	Stride      int  `json:"stride"` // 1 = complete neighbourhood
+	EdgeBlank   bool `json:"edge_blank,omitempty"` // the last field before the CheckSum ends in a blank
 }
 
 func freshTag(used map[string]bool, from int) string {
@@ -81,6 +82,18 @@ func genC03(t *rapid.T) *C03Case {
 		cc.Body = append(cc.Body, &gen.Pop{V: adv})
 		want := (ddd + int(x) - 1 + 256) % 256
 		cc.Adversarial = gen.Retarget(&cc.Case, 0, want)
+	}
+	if rapid.IntRange(0, 4).Draw(t, "edgeBlank") == 0 {
+		// the field right before the CheckSum ends in (or the first value begins with) a blank:
+		// a checksum that normalises its input before summing shows when that blank is damaged
+		h, b, tr := gen.Wire(&cc.Case)
+		all := append(append(h, b...), tr...)
+		if n := len(all); n > 0 && !cc.Adversarial {
+			if l := all[n-1]; l.V != nil && (l.T == gen.TString || l.T == gen.TRaw) && !l.V.Decoy {
+				l.V.S = append(l.V.S, ' ')
+				cc.EdgeBlank = true
+			}
+		}
 	}
 	return cc
 }
@@ -189,6 +202,9 @@ func checkC03(cc *C03Case, rec *evid.Rec) (vs []pbt.Violation) {
 	}
 	if cc.NonASCII {
 		rec.Hist("non-ascii-base")
+	}
+	if cc.EdgeBlank {
+		rec.Hist("blank-right-before-the-checksum")
 	}
 	rec.Hist(fmt.Sprintf("base-length=%d0s", len(base)/10))
 	if cc.Tpl.Tags != ref.StdTags {
